@@ -32,6 +32,13 @@ use mediasan_common::{AsyncSkip, SeekSkipAdapter, Skip};
 fn main() {
     common::main_loop(|kind, args| match kind {
         "views" => views(args),
+        // viewsat <k> <mp4|webp> ...: as `views`, every bottom reader already advanced by k bytes (a caller that read a prefix first)
+        "viewsat" => {
+            PRE.with(|p| p.set(args[0].parse().unwrap()));
+            let r = views(&args[1..]);
+            PRE.with(|p| p.set(0));
+            r
+        }
         "fsmax" => fsmax(),
         _ => format!("unknown-kind {kind}"),
     });
@@ -359,6 +366,21 @@ fn parse_stack<'a>(stack: &str, bases: &[&'a str], caps: &[usize]) -> Option<(Ve
     None
 }
 
+thread_local! {
+    /// `viewsat`: every bottom reader is advanced to this position before the sanitizer sees it
+    static PRE: std::cell::Cell<u64> = const { std::cell::Cell::new(0) };
+}
+fn std_cur(data: &[u8]) -> io::Cursor<Vec<u8>> {
+    let mut c = io::Cursor::new(data.to_vec());
+    c.set_position(PRE.with(|p| p.get()));
+    c
+}
+fn fut_cur(data: &[u8]) -> futures_util::io::Cursor<Vec<u8>> {
+    let mut c = futures_util::io::Cursor::new(data.to_vec());
+    c.set_position(PRE.with(|p| p.get()));
+    c
+}
+
 fn run_view(san: &San, data: &[u8], view: &str) -> String {
     let parts: Vec<&str> = view.split('/').collect();
     if parts.len() != 4 {
@@ -394,30 +416,33 @@ fn run_view(san: &San, data: &[u8], view: &str) -> String {
     }
     if is_async {
         let Some((layers, base)) = parse_stack(stack, ASYNC_BASES, &caps) else { return "unknown-stack".into() };
-        let chunked = || AChunked(Chunked { cur: io::Cursor::new(data.to_vec()), sizes: sizes.clone(), idx: 0 });
+        let chunked = || AChunked(Chunked { cur: std_cur(data), sizes: sizes.clone(), idx: 0 });
         match base {
-            "fcursor" => go!(async_l3, &layers, futures_util::io::Cursor::new(data.to_vec())),
-            "seek(fcursor)" => go!(async_l3, &layers, SeekSkipAdapter(futures_util::io::Cursor::new(data.to_vec()))),
+            "fcursor" => go!(async_l3, &layers, fut_cur(data)),
+            "seek(fcursor)" => go!(async_l3, &layers, SeekSkipAdapter(fut_cur(data))),
             "seek(achunk)" => go!(async_l3, &layers, SeekSkipAdapter(chunked())),
             _ => "unknown-stack".into(),
         }
     } else {
         let Some((layers, base)) = parse_stack(stack, SYNC_BASES, &caps) else { return "unknown-stack".into() };
-        let chunked = || Chunked { cur: io::Cursor::new(data.to_vec()), sizes: sizes.clone(), idx: 0 };
+        let chunked = || Chunked { cur: std_cur(data), sizes: sizes.clone(), idx: 0 };
         match base {
-            "cursor" => go!(sync_l3, &layers, io::Cursor::new(data.to_vec())),
-            "seek(cursor)" => go!(sync_l3, &layers, SeekSkipAdapter(io::Cursor::new(data.to_vec()))),
+            "cursor" => go!(sync_l3, &layers, std_cur(data)),
+            "seek(cursor)" => go!(sync_l3, &layers, SeekSkipAdapter(std_cur(data))),
             "seek(mut(cursor))" => {
-                let mut c = io::Cursor::new(data.to_vec());
+                let mut c = std_cur(data);
                 go!(sync_l3, &layers, SeekSkipAdapter(&mut c))
             }
             "chunk" => go!(sync_l3, &layers, chunked()),
             "seek(chunk)" => go!(sync_l3, &layers, SeekSkipAdapter(chunked())),
             "file" | "reffile" | "seek(file)" => {
-                let f = match temp_file(data) {
+                let mut f = match temp_file(data) {
                     Ok(f) => f,
                     Err(e) => return format!("tempfile-error {e}"),
                 };
+                if let Err(e) = f.seek(SeekFrom::Start(PRE.with(|p| p.get()))) {
+                    return format!("tempfile-error {e}");
+                }
                 match base {
                     "file" => go!(sync_l3, &layers, f),
                     "reffile" => go!(sync_l3, &layers, &f),
